@@ -23,6 +23,8 @@ type Frag struct {
 	Tail       []string        // own trailing lines (attribute groups, metadata)
 	nuniq      int
 	nmd, nattr int
+	// Solo marks a fragment that must be alone in its module (it uses unnamed @N values).
+	Solo bool
 	// NoLLVM marks the variant as outside the LLVM-compared alphabet.
 	NoLLVM bool
 	// MDBase / AttrBase are the first metadata / attribute-group IDs the fragment may use.
@@ -181,6 +183,7 @@ type Entry struct {
 
 // Variant is one instantiated fragment with the choice vector that produced it.
 type Variant struct {
+	Solo    bool
 	Entry   string
 	Choices []int
 	Devs    []string
@@ -196,6 +199,7 @@ func Build(e Entry, prefix string, mdBase int, choices []int) (v Variant) {
 		v.Frag = f
 	})
 	v.Entry, v.Choices, v.Devs, v.NoLLVM = e.Name, append([]int(nil), c.Trace...), c.Deviations(), e.LLVMSkip || v.Frag.NoLLVM
+	v.Solo = v.Frag.Solo
 	return v
 }
 
@@ -211,6 +215,7 @@ func Variants(e Entry, idx int, bound int) []Variant {
 	}, func(c *choice.Ctx) {
 		v := &out[len(out)-1]
 		v.Choices, v.Devs = append([]int(nil), c.Trace...), c.Deviations()
+		v.Solo, v.NoLLVM = v.Frag.Solo, v.NoLLVM || v.Frag.NoLLVM
 	})
 	return out
 }
